@@ -14,6 +14,7 @@ CONSTANTS
   CapPending = TRUE
   MaxHist = 7
   WithdrawOnExpiry = TRUE
+  KeepLaterDeadline = FALSE
   EraseOnLookup = FALSE
 INVARIANTS Reach_PendingFetch
 VIEW View
